@@ -191,6 +191,30 @@ func Run(args []string) *rep.Report {
 			re, err := d.md.MarshalBinary()
 			if err != nil || !bytes.Equal(re, input) {
 				bad("not-canonical", tc, fmt.Sprintf("%s: accepted %x re-encodes to %x (%v)", what, input, re, err))
+				return
+			}
+			// what was decoded is the caller's, and so are the bytes it was decoded from and the bytes it encodes to: the caller
+			// may overwrite either (a read buffer that is refilled, an encoding that is patched) without the metadata, or
+			// anything encoded or decoded later, changing
+			orig := append([]byte(nil), input...)
+			buf := append([]byte(nil), input...)
+			d2 := decode(buf)
+			for i := range buf {
+				buf[i] = 0xEE
+			}
+			for i := range re {
+				re[i] = 0xDD
+			}
+			if d2.ok {
+				if re2, err := d2.md.MarshalBinary(); err != nil || !bytes.Equal(re2, orig) {
+					bad("decoded-aliases-input", tc, fmt.Sprintf("%s: after the input buffer was overwritten the decoded metadata encodes to %x, it was decoded from %x (%v)", what, re2, orig, err))
+					return
+				}
+			}
+			if d3 := decode(orig); !d3.ok {
+				bad("encoding-aliases-library-state", tc, fmt.Sprintf("%s: after an encoding returned earlier was overwritten, %x no longer decodes: %s", what, orig, d3.err))
+			} else if re3, err := d3.md.MarshalBinary(); err != nil || !bytes.Equal(re3, orig) {
+				bad("encoding-aliases-library-state", tc, fmt.Sprintf("%s: after an encoding returned earlier was overwritten, %x re-encodes to %x (%v)", what, orig, re3, err))
 			}
 		}
 	}
